@@ -134,11 +134,16 @@ def harnesses(tier):
                             'restarts': '<=2', 'file_size': 'unbounded Int >= 1', 'timestamps': 'unbounded Int'},
                     functions=fn, stubs=stubs, assumptions=assume, budget_s=900)]
     assume_p = [a for a in assume if 'no pruning' not in a] + ['retention pruning by the writer (total_size symbolic): a record in a pruned file is no longer "on disk"']
-    hs.append(Harness('c14.head_prune', scenario_factory(5 if q else 6, ['txt'], ops=['write', 'read', 'save', 'crash_restart'] if q else ['write', 'read', 'save', 'save_crash', 'crash_restart'], prune=True),
-                      twin=scenario_factory(4, ['txt'], planted=True, prune=True),
-                      bounds={'operations': 5 if q else 6, 'modes': 'txt', 'op kinds': 'write read save crash-restart' + ('' if q else ' save-with-crash'), 'restarts': '<=2',
-                              'file_size': 'unbounded Int >= 1', 'total_size': 'unbounded Int >= 1 (the writer prunes old files while the reader is up or down)'},
-                      functions=fn + ['rolllog.RollLog.write (roll-over, retention)'], stubs=stubs, assumptions=assume_p, budget_s=900))
+    def prune_h(name, n, ops, budget):
+        return Harness(name, scenario_factory(n, ['txt'], ops=ops, prune=True), twin=scenario_factory(4, ['txt'], planted=True, prune=True),
+                       bounds={'operations': n, 'modes': 'txt', 'op kinds': ' '.join(ops), 'restarts': '<=2', 'file_size': 'unbounded Int >= 1',
+                               'total_size': 'unbounded Int >= 1 (the writer prunes old files while the reader is up or down)'},
+                       functions=fn + ['rolllog.RollLog.write (roll-over, retention)'], stubs=stubs, assumptions=assume_p, budget_s=budget)
+    if q:
+        hs.append(prune_h('c14.head_prune', 5, ['write', 'read', 'save', 'crash_restart'], 900))
+    else:
+        hs.append(prune_h('c14.head_prune', 6, ['write', 'read', 'save', 'crash_restart'], 1500))
+        hs.append(prune_h('c14.head_prune.save_crash', 5, ['write', 'read', 'save', 'save_crash', 'crash_restart'], 1500))
     if not q:
         hs.append(Harness('c14.head_crash.6ops', scenario_factory(6, ['txt'], ops=['write', 'read', 'save_crash', 'crash_restart']),
                           bounds={'operations': 6, 'op kinds': 'write read save-with-crash crash-restart', 'restarts': '<=2'}, functions=fn, stubs=stubs, assumptions=assume, budget_s=900))
